@@ -4,7 +4,69 @@ from __future__ import annotations
 
 from ..layout import META_KINDS
 from ..rendercheck import (TG, TL, describe, flat_tags, fmt, frames, has_ws, model, preconditions, walk, _state_text)
-from ..report import Ctx
+from typing import Any
+
+from ..report import Ctx, SharedCtx
+
+
+class _FlagWrites(SharedCtx):
+    """C08's purity obligations, of which C05 needs one clause: no rendering / document operation writes the whitespace flag
+    of a tag that existed before the call (the flag the user gave is the one the layout rules are stated for)."""
+
+    def fail(self, rule: str, where: str, construct: Any, message: str, witness: Any = None, path: Any = None, line: Any = None) -> None:
+        if rule == "C08.pure" and "add_ws" in str(construct).split("=")[0]:
+            self._ctx.fail("C05.flag", where, construct, message, witness, path, line)
+        else:
+            self.__dict__["other"] = self.__dict__.get("other", 0) + 1
+
+    def ok(self, rule: str, what: str, **detail: Any) -> None:
+        pass
+
+    def count(self, *a: Any, **k: Any) -> None:
+        pass
+
+    def min_count(self, *a: Any, **k: Any) -> None:
+        pass
+
+
+def flag_is_readonly(ctx: Ctx) -> None:
+    from .c08 import purity
+    n0 = len(ctx.findings)
+    O = purity(_FlagWrites(ctx, lambda r: r), True)       # type: ignore[arg-type]
+    if len(ctx.findings) == n0:
+        ctx.ok("C05.flag", "no read-only operation (render, str, tagify, document render/save) writes Tag.add_ws of a pre-existing tag",
+               functions=len(O.analysed))
+
+
+def rebuilt_tags_keep_flag(ctx: Ctx) -> None:
+    """A tag built from another tag's name (Tag(x.name, ...)) is that tag's stand-in in the output: it must be given x's
+    whitespace flag, because the constructor's default is True (a rebuilt inline tag would turn into a block tag)."""
+    import ast
+    from ..frontend import iter_functions
+    n = 0
+    for mod in ctx.prog.modules.values():
+        if not mod.name.startswith("htmltools") or mod.name in ("htmltools.tags", "htmltools.svg"):
+            continue
+        for qual, fn in iter_functions(mod):
+            for c in ast.walk(fn):
+                if not (isinstance(c, ast.Call) and isinstance(c.func, ast.Name) and c.func.id == "Tag" and c.args):
+                    continue
+                a0 = c.args[0]
+                if not (isinstance(a0, ast.Attribute) and a0.attr == "name"):
+                    continue
+                src = ast.unparse(a0.value)
+                if ctx.prog.get_class("Tag", mod) is None:
+                    continue
+                n += 1
+                kw = {k.arg: k.value for k in c.keywords if k.arg}
+                v = kw.get("_add_ws")
+                ok = v is not None and isinstance(v, ast.Attribute) and v.attr == "add_ws" and ast.unparse(v.value) == src
+                ok = ok or any(k.arg is None for k in c.keywords)      # **fields: not decided here
+                ctx.check(ok, "C05.flag", f"a tag rebuilt from `{src}` is given {src}.add_ws", f"{mod.name}:{qual}", f"Tag({src}.name, ...)",
+                          f"{qual} rebuilds a tag as Tag({src}.name, ...) without `_add_ws={src}.add_ws`: the stand-in gets the constructor default True, so an inline "
+                          f"tag (span, noscript, template ...) is laid out as a block tag wherever this copy is rendered", line=c.lineno,
+                          witness="HTMLDependency('a', '1', head=TagList(tags.span('x'), tags.span('y')))")
+    ctx.count("tags rebuilt from another tag's name", n)
 
 
 def check(ctx: Ctx) -> None:
@@ -23,6 +85,8 @@ def check(ctx: Ctx) -> None:
     from ..interp import Interp
     from .c08 import tag_tagify_shape
     tag_tagify_shape(ctx, Interp(ctx.prog), rule="C05.tagify", fields={"add_ws"})
+    flag_is_readonly(ctx)
+    rebuilt_tags_keep_flag(ctx)
     n = 0
     for step in walk(m, block_in_inline=True):
         ch, prev, p = step["child"], step["prev"], step["params"]
